@@ -566,6 +566,8 @@ void h_print_arg(void)
 
 /* ====================================================================================
  * format_region:   %%   |   %{name}   |   %<format>{name}      c->in points to the '%'
+ * NOT CLOSED (group a5_format_region, tier observation): every clause below was seen to hold or to be repaired
+ * (failing runs end in minutes), but the final all-clauses proof did not finish in 1500 s (14-38 M clauses).
  * Every callee is used through its contract above (advance_in, parse_printf_format, parse_arg_name,
  * ev_spec_find_arg, print_arg); what reaches snprintf -- destination, room, format, VALUE -- is what print_arg's
  * contract says about the recording stub.
@@ -707,9 +709,7 @@ __CPROVER_requires(c->len >= 0 && __CPROVER_w_ok(c->out, (size_t) c->len + 1) &&
 __CPROVER_requires(g_pr.calls == 0 && g_fa_calls == 0 && g_rec == 1)
 __CPROVER_assigns(c->in, c->out, c->len, DIAG_FRAME, g_pr, g_pf_k, g_pn_k, g_fa_idx, g_fa_calls)
 __CPROVER_assigns(c->len > 0: __CPROVER_object_upto(c->out, (size_t) c->len))
-#ifndef A5_V1
 __CPROVER_ensures(a5_fr_post(RET, spec, c, OLD(g_err), g_err) == 0)
-#endif
 ;
 void h_format_region(void)
 {
@@ -732,12 +732,6 @@ void h_format_region(void)
 	uint8_t *pay = psize > 0 ? malloc(psize) : NULL;
 	__CPROVER_assume(psize == 0 || pay != NULL);
 	h_ev.payload = (const union ovni_ev_payload *) pay; h_ev.payload_size = psize;
-	/* the group's class of texts (the classes of the groups a5_format_region_* cover every text) */
-#if A5_CLASS == 1
-	__CPROVER_assume(!(len >= 2 && in[0] == '%' && in[1] != '{' && in[1] != '%'));      /* everything but %<format>{name} */
-#elif A5_CLASS == 2
-	__CPROVER_assume(len >= 2 && in[0] == '%' && in[1] != '{' && in[1] != '%');         /* %<format>{name} */
-#endif
 	g_len0 = c.len; g_out0 = c.out; g_payload = pay; g_psize = psize;
 	g_rec = 1; g_pr.calls = 0; g_fa_calls = 0;
 	int r = format_region(&h_spec, &c, &h_ev);
@@ -748,21 +742,3 @@ void h_format_region(void)
 	if (r != 0 && len > 4 && g_pr.calls == 0 && in[0] == '%' && in[1] == '{' && in[2] == 'x' && in[3] == '}' && c.len > 0) REACH("%{x} with no argument x declared: refused");
 	if (r != 0 && len == 2 && in[0] == '%' && in[1] == 'd') REACH("unterminated region refused");
 }
-#ifdef A5_V1
-int ct_print_arg(struct ev_arg *arg, const char *fmt, struct cursor *c, struct emu_ev *ev)
-__CPROVER_requires(__CPROVER_rw_ok(c, sizeof(*c)))
-__CPROVER_assigns(c->out, c->len, DIAG_FRAME, g_pr)
-__CPROVER_ensures(1)
-;
-int ct_parse(char *arg, int buflen, struct cursor *c)
-__CPROVER_requires(__CPROVER_rw_ok(c, sizeof(*c)))
-__CPROVER_assigns(c->in, DIAG_FRAME)
-__CPROVER_assigns(buflen > 0: __CPROVER_object_upto(arg, (size_t) buflen))
-__CPROVER_ensures(__CPROVER_pointer_equals(c->in, OLD(c->in) + 1))
-;
-struct ev_arg *ct_find(struct ev_spec *spec, const char *name)
-__CPROVER_requires(1)
-__CPROVER_assigns()
-__CPROVER_ensures(RET == NULL || __CPROVER_pointer_equals(RET, &spec->args[0]))
-;
-#endif
